@@ -23,12 +23,15 @@ Definition rcorr (s' : state) (oc : outcome) (o : robs) : bool :=
        height (it can never be drained), an entry that vanished or appeared outside its block;
     23 a drained plain request without its random number of that height, or an oracle request
        not handed to the service module. *)
+(** the static part of clause 22 *)
+Definition rhyg (o : robs) : bool :=
+  nodupb (map fst (ro_queue o)) && forallb (fun kv => ro_height o <=? fst (fst kv)) (ro_queue o).
+
 Definition rprop (prevq : list (rkey * rval)) (op_ : op) (o : robs) : Z :=
   let h := ro_height o in
   first_bad [
     (21, match op_ with BeginBlock t _ => (t =? 0) || negb (ro_code o =? 2) | _ => true end);
-    (22, nodupb (map fst (ro_queue o))
-         && forallb (fun kv => h <=? fst (fst kv)) (ro_queue o)
+    (22, rhyg o
          && match op_ with
             | BeginBlock _ _ =>
                 (ro_code o =? 2)
